@@ -1165,6 +1165,37 @@ pub fn size_compaction_state(options: DbOptions, levels: &[(usize, Vec<VFile>)])
     (node.element.requires_size_compaction(), level, node.element.files.get(level).map_or(0, |f| f.len()))
 }
 
+/// Run list operations on a fresh `LinkedList<u64>`: (0, e) push, (1, e) push_front, (2, _) pop, (3, _) pop_front,
+/// (4, i) remove the node that is i-th in the expected order. Returns (elements in `iter()` order, `len()`, head, tail).
+pub fn linked_list_scenario(ops: &[(u8, u64)]) -> (Vec<u64>, usize, Option<u64>, Option<u64>) {
+    use crate::utils::linked_list::{LinkedList, SharedNode};
+    let mut list: LinkedList<u64> = LinkedList::new();
+    let mut nodes: std::collections::VecDeque<SharedNode<u64>> = Default::default();
+    for (op, arg) in ops {
+        match op {
+            0 => nodes.push_back(list.push(*arg)),
+            1 => nodes.push_front(list.push_front(*arg)),
+            2 => {
+                list.pop();
+                nodes.pop_back();
+            }
+            3 => {
+                list.pop_front();
+                nodes.pop_front();
+            }
+            _ => {
+                if let Some(n) = nodes.remove(*arg as usize) {
+                    list.remove_node(n);
+                }
+            }
+        }
+    }
+    let order: Vec<u64> = list.iter().map(|n| n.read().element).collect();
+    let head = list.head().map(|n| n.read().element);
+    let tail = list.tail().map(|n| n.read().element);
+    (order, list.len(), head, tail)
+}
+
 /// Recover a fresh version set from the (closed) database at `options`.
 /// Returns (manifest number CURRENT names, manifest number the version set writes to next, the next new file number,
 /// manifest reused).
